@@ -27,7 +27,12 @@ pub fn def() -> PropDef {
 }
 
 fn domain(s: &EnumSpec) -> bool {
-    parse_domain(s) && s.variants.iter().all(|v| !refsem::spellings(s, v).iter().any(|x| x.contains('{') || x.contains('}')))
+    // a brace that is not part of an escaped pair would be a placeholder (or malformed); `{{` / `}}` are plain text of the name
+    let unescaped = |x: &str| {
+        let t = x.replace("{{", "").replace("}}", "");
+        t.contains('{') || t.contains('}')
+    };
+    parse_domain(s) && s.variants.iter().all(|v| !refsem::spellings(s, v).iter().any(|x| unescaped(x)))
 }
 
 pub fn programs(tier: Tier) -> ProgramSet {
@@ -77,6 +82,21 @@ pub fn programs(tier: Tier) -> ProgramSet {
             if seen.insert(e.spec.clone()) {
                 let source = render(&e.spec);
                 out.push(Program { idx: 0, label: e.label, k: e.k, spec: e.spec, aux: json!(null), source });
+            }
+        }
+    }
+    // names with ESCAPED braces on every variant kind (they are text, printed and parsed as written)
+    for (kn, kind) in [("unit", Kind::Unit), ("tuple1", Kind::Tuple(vec![FieldTy::U8])), ("named2", Kind::Named(vec![NamedField { name: "x".into(), ty: FieldTy::U8, default_with: false }, NamedField { name: "y".into(), ty: FieldTy::Str, default_with: false }]))] {
+        for (an, ser, tos) in [("serialize=\"a{{b}}\"", Some("a{{b}}"), None), ("to_string=\"{{x}}\"", None, Some("{{x}}")), ("serialize=\"}}{{\" + to_string=\"q{{\"", Some("}}{{"), Some("q{{"))] {
+            let mut spec = EnumSpec::base(3);
+            spec.variants[1].kind = kind.clone();
+            if let Some(x) = ser {
+                spec.variants[1].serialize = vec![x.to_string()];
+            }
+            spec.variants[1].to_string = tos.map(|t| t.to_string());
+            if domain(&spec) && seen.insert(spec.clone()) {
+                let source = render(&spec);
+                out.push(Program { idx: 0, label: format!("B3 + v1.kind={} + v1.{}", kn, an), k: 2, spec, aux: json!(null), source });
             }
         }
     }
